@@ -1,7 +1,7 @@
 """C16 — Classic descent minimisers are monotone and their line search is sound (DESIGN.md §5 C16, design.d/C16.md).
 
 Tie, four streams (all against the real code in-process, all cases through one batch of the Lean driver):
-  ls      real `LineSearch.perform_line_search` on generated polynomial energies (convex, non-convex, boxed domains that
+  ls      real `LineSearch.perform_line_search` on generated polynomial / rational energies (convex, non-convex, boxed domains that
           yield NaN / inf / 1e200 / FloatingPointError) with a tracing `LineEnergy`; the recorded (α, φ, φ') trace goes to the
           verified checker `runLS` (must accept; same verdict, same returned α, same exception kind)   [class F]
           + oracle: strong Wolfe at the returned point in exact rationals                               [real code only]
@@ -32,6 +32,7 @@ DRIVER = "Driver/C16.lean"
 OBLIGATIONS = ["NiftyVerif.C16." + t for t in (
     "descent_monotone", "descent_status",
     "ls_success_wolfe", "ls_success_wolfe_fun", "ls_success_strict_decrease", "ls_returns_evaluated_point",
+    "quadmin_stationary", "cubicmin_interpolates", "cubicmin_stationary",
     "vl_eq_two_loop", "buffer_window", "vl_eq_lbfgs_direction",
     "store_gram", "store_invariant_step", "vl_run_eq_lbfgs_run",
 )]
@@ -46,8 +47,9 @@ TRUSTED_BASE = [
     "descent_minimizers.py / line_search.py; tied only by the differential checks of this module",
     "harness-side tracer: subclass of line_search.LineEnergy installed in the harness process records (alpha, value, "
     "directional_derivative) of every evaluation; PolyEnergy (harness) is the energy under test",
-    "IEEE rounding of c1*alpha*phi'(0), -c2*phi'(0), 0.99*maxstepsize, the backtracking midpoint and of "
-    "_cubicmin/_quadmin is outside the model (interpolated step lengths are taken from the trace, bracket checked)",
+    "IEEE rounding of c1*alpha*phi'(0), -c2*phi'(0), 0.99*maxstepsize, the backtracking midpoint is outside the model; "
+    "_quadmin/_cubicmin are recomputed exactly from the recorded floats and compared with a conditioned rounding-error "
+    "bound (2^-42 units, >= 800x the largest deviation observed); sqrt itself is not modelled (stationarity is tested)",
 ]
 ASSUMPTIONS = [
     "energy values totally ordered (NaN energies inside an accepted step are outside the model)",
